@@ -1,0 +1,77 @@
+//go:build verif
+
+// Package simhook carries the scheduling, fault and network seams used by the
+// deterministic simulator in /verif. With the "verif" build tag off every
+// function here is an empty inlineable stub.
+package simhook
+
+import (
+	"context"
+	"net"
+)
+
+// Enabled reports whether hooks are compiled in.
+const Enabled = true
+
+var (
+	// YieldFn is called at scheduling points (no lock held by the caller).
+	YieldFn func(point, detail string)
+	// HoldFn is called at the borders of regions which sleep while holding
+	// locks.
+	HoldFn func(id string, delta int)
+	// FailFn is asked whether a cooperative fault should fire at [site].
+	FailFn func(site, detail string) bool
+	// ListenFn returns a simulated listener for [addr], or nil.
+	ListenFn func(network, addr string) (net.Listener, error)
+	// DialFn returns a simulated connection to [addr], or nil.
+	DialFn func(ctx context.Context, network, addr string) (net.Conn, error)
+)
+
+// At is a scheduling point.
+func At(point string, detail ...string) {
+	if f := YieldFn; f != nil {
+		d := ""
+		if len(detail) > 0 {
+			d = detail[0]
+		}
+		f(point, d)
+	}
+}
+
+// Hold marks the start (+1) or end (-1) of a region which sleeps while holding
+// locks.
+func Hold(id string, delta int) {
+	if f := HoldFn; f != nil {
+		f(id, delta)
+	}
+}
+
+// Fail is a cooperative fault point.
+func Fail(site string, detail ...string) bool {
+	if f := FailFn; f != nil {
+		d := ""
+		if len(detail) > 0 {
+			d = detail[0]
+		}
+		return f(site, d)
+	}
+	return false
+}
+
+// Listen returns (listener, true) when the simulator owns the network.
+func Listen(network, addr string) (net.Listener, error, bool) {
+	if f := ListenFn; f != nil {
+		l, err := f(network, addr)
+		return l, err, true
+	}
+	return nil, nil, false
+}
+
+// Dial returns (conn, err, true) when the simulator owns the network.
+func Dial(ctx context.Context, network, addr string) (net.Conn, error, bool) {
+	if f := DialFn; f != nil {
+		c, err := f(ctx, network, addr)
+		return c, err, true
+	}
+	return nil, nil, false
+}
